@@ -124,7 +124,9 @@ def check_corpus(item):
 
 
 def gen_opts(tier):
-    return gmsg.GenOpts(tier)
+    o = gmsg.GenOpts(tier)
+    o.template.defs_in_rep = True
+    return o
 
 
 def run(tier, seed):
